@@ -351,6 +351,16 @@ func (lg *ledger) callObligations(c *ssa.Call, blk *ssa.BasicBlock, mk func(stri
 				}
 				return false, ""
 			}})
+		case "Int":
+			mk(what, kin("kind in {Int,Int8,Int16,Int32,Int64}", kindSet(2, 3, 4, 5, 6)))
+		case "Uint":
+			mk(what, kin("kind in {Uint,Uint8,Uint16,Uint32,Uint64,Uintptr}", kindSet(7, 8, 9, 10, 11, 12)))
+		case "Float":
+			mk(what, kin("kind in {Float32,Float64}", kindSet(13, 14)))
+		case "Complex":
+			mk(what, kin("kind in {Complex64,Complex128}", kindSet(15, 16)))
+		case "Bool":
+			mk(what, kin("kind is Bool", kindSet(kBool)))
 		case "Kind", "IsValid", "String", "IsZero":
 		}
 		return
